@@ -34,6 +34,10 @@ where
         return Err(());
     }
 
+    if !all_finite_and_nonnegative(probabilities) {
+        return Err(());
+    }
+
     let free_weight =
         wrapping_pow2::<Probability>(PRECISION).wrapping_sub(&probabilities.len().as_());
     let normalization = normalization.unwrap_or_else(|| probabilities.iter().copied().sum::<F>());
@@ -51,6 +55,15 @@ where
         accumulated_slack = accumulated_slack.wrapping_add(&Probability::one());
         left_cumulative
     }))
+}
+
+/// Checks the precondition on the entries of an unnormalized floating point probability
+/// mass function (in particular, returns `false` if any entry is negative or NaN).
+#[inline(always)]
+fn all_finite_and_nonnegative<F: FloatCore>(probabilities: &[F]) -> bool {
+    probabilities
+        .iter()
+        .all(|probability| *probability >= F::zero() && probability.is_finite())
 }
 
 fn perfectly_quantized_probabilities<Probability, F, const PRECISION: usize>(
